@@ -165,12 +165,15 @@ OPS = {
     'sl_fancy': lambda D, R, ctx: (D[np.array([2, 0]), :], R[np.array([2, 0]), :]),
     'sl_step': lambda D, R, ctx: (D[::2, ::-1], R[::2, ::-1]),
     'zero_row': _zero_rows, 'zero_col': _zero_cols, 'zero_rowslice': _zero_row_slice,
+    # empty selections: the result has a dimension of length zero (and can be sliced, transposed, ... again)
+    'sl_norows': lambda D, R, ctx: (D[1:1, :], R[1:1, :]),
+    'sl_nocols': lambda D, R, ctx: (D[:, np.array([], dtype=int)], R[:, np.array([], dtype=int)]),
 }
 INPLACE = {'iadd_r', 'iadd_c', 'isub_r', 'isub_c', 'zero_row', 'zero_col', 'zero_rowslice'}
 OPS_QUICK = ['add_r', 'add_c', 'add_0', 'radd_c', 'sub_c', 'rsub_c', 'neg', 'iadd_r', 'isub_c', 'lmul2', 'rmulj', 'mul0',
              'lmul_tiny', 'rmul_big',
              'lmatc', 'rmat', 'rmat_rect', 'T', 'conj', 'real', 'imag', 'copy', 'sl_rows', 'sl_fancy', 'sl_step',
-             'zero_row', 'zero_col']
+             'zero_row', 'zero_col', 'sl_norows', 'sl_nocols']
 
 
 def ref_admissible(name, R, seed):
@@ -223,6 +226,16 @@ def OPS_REF(name, R, ctx):
 def observations(D, R, seed):
     """list of (name, impl thunk, ref thunk)"""
     r, c = R.shape
+    if r == 0 or c == 0:
+        # a carrier with a dimension of length zero: shape, dense value and what slicing it again gives
+        obs = [('todense', lambda: D.todense(), lambda: R), ('shape', lambda: np.array(D.shape), lambda: np.array(R.shape)),
+               ('T_of_empty', lambda: D.T.todense(), lambda: R.T),
+               ('reslice_rows', lambda: D[0:1, :].todense(), lambda: R[0:1, :]),
+               ('reslice_cols', lambda: D[:, 0:1].todense(), lambda: R[:, 0:1]),
+               ('reslice_fancy_rows', lambda: D[np.array([0, 0]), :].todense(), lambda: R[np.array([0, 0]), :]),
+               ('reslice_fancy_cols', lambda: D[:, np.array([0, 0])].todense(), lambda: R[:, np.array([0, 0])]),
+               ('col_of_empty', lambda: D[:, 0], lambda: R[:, 0]), ('row_of_empty', lambda: D[0, :], lambda: R[0, :])]
+        return obs
     B = rd.mat(r, c, 20, seed)
     Bc = rd.mat(r, c, 21, seed, True)
     obs = [
@@ -265,6 +278,13 @@ def observations(D, R, seed):
     mats_n = [sps.coo_matrix(B), None, sps.coo_matrix(2 * B + 1), None, sps.coo_matrix(-B)]
     obs.append(('contract_multi_none', lambda: D.contract_multi(mats_n),
                 lambda: np.array([np.sum(R * B), 0.0, np.sum(R * (2 * B + 1)), 0.0, -np.sum(R * B)])))
+    # sparse operands WITHOUT stored entries (first, in the middle, last): they contribute 0 at their own position
+    empty = sps.coo_matrix((r, c))
+    for nm, lst, refl in (('first', [empty, sps.coo_matrix(B)], lambda: [0.0, np.sum(R * B)]),
+                          ('middle', [sps.coo_matrix(B), empty, sps.coo_matrix(2 * B + 1)],
+                           lambda: [np.sum(R * B), 0.0, np.sum(R * (2 * B + 1))]),
+                          ('last', [sps.coo_matrix(B), empty], lambda: [np.sum(R * B), 0.0])):
+        obs.append(('contract_multi_empty', (lambda lst=lst: D.contract_multi(lst)), (lambda refl=refl: np.array(refl()))))
     x = rd.vec(c, 23, seed)
     xc = rd.vec(c, 24, seed, True)
     y = rd.vec(r, 25, seed)
